@@ -195,6 +195,8 @@ class H2Protocol:
             stream_ids = list(self.streams.keys())
             for stream_id in stream_ids:
                 await self._close_stream(stream_id)
+            for stream_buffer in self.stream_buffers.values():
+                await stream_buffer.close()  # Release any app waiting to send
             await self.has_data.set()
 
     async def stream_send(self, event: StreamEvent) -> None:
@@ -275,6 +277,8 @@ class H2Protocol:
                     pass
             elif isinstance(event, h2.events.StreamReset):
                 await self._close_stream(event.stream_id)
+                if event.stream_id in self.stream_buffers:
+                    await self.stream_buffers[event.stream_id].close()  # Release any app waiting to send
                 await self._window_updated(event.stream_id)
             elif isinstance(event, h2.events.WindowUpdated):
                 await self._window_updated(event.stream_id)
